@@ -48,8 +48,8 @@ class EnumPhase:
     """Exhaustive enumeration: gen(shard, nshards) yields JSON-able cases."""
     kind = 'enumeration'
 
-    def __init__(self, name, gen, note=''):
-        self.name, self.gen, self.note = name, gen, note
+    def __init__(self, name, gen, note='', exhaustive=True):
+        self.name, self.gen, self.note, self.exhaustive = name, gen, note, exhaustive
 
 
 def load_known():
@@ -381,7 +381,8 @@ def main(argv=None):
               % (prop_id, e.get('what', sig), e.get('id', '?'), n,
                  short(known_examples.get(sig, ''), 160)))
 
-    exhaustive = [p for p in prop.phases(tier) if p.kind == 'enumeration']
+    exhaustive = [p for p in prop.phases(tier) if p.kind == 'enumeration'
+                  and getattr(p, 'exhaustive', True)]
     all_enum = bool(exhaustive) and len(exhaustive) == len(prop.phases(tier))
     wall = time.time() - t0
     evidence = {
